@@ -225,7 +225,8 @@ class Model:
             hooks.append('    _yatiml_defaults = _DEFOVR_%s\n' % name)
 
         if kind == 'enum':
-            L.append('class %s(enum.Enum):' % name)
+            L.append('class %s(%senum.Enum):' % (
+                name, 'str, ' if c.get('str_mixin') else ''))
             for i, m in enumerate(c['members']):
                 L.append('    %s = %d' % (m, i + 1))
             L.extend(h.rstrip('\n') for h in hooks)
@@ -452,6 +453,10 @@ class Model:
         return self.cspecs[name].get('params', [])
 
     def is_registered(self, name):
+        # load_function() registers the document type itself if it is a class
+        dt = self.spec.get('doc_type')
+        if isinstance(dt, list) and dt[0] == 'cls' and dt[1] == name:
+            return True
         return self.cspecs[name].get('registered', True)
 
     def subclasses_direct(self, name):
@@ -555,6 +560,26 @@ def apply_season(model, name, cls, op, node):
             node.make_mapping()
             for pname, part in zip(op[1], parts):
                 node.set_attribute(pname, part)
+    elif k == 'scalar_to_mapping_typed':
+        # "parsed class" with typed fields: '12|red' -> {p0: 12, p1: red}
+        if node.is_scalar(str):
+            parts = str(node.get_value()).split(op[2])
+            if len(parts) != len(op[1]):
+                raise yatiml.SeasoningError(
+                    'expected %d fields separated by %r' % (len(op[1]), op[2]))
+            vals = []
+            for (pname, kind), part in zip(op[1], parts):
+                if kind == 'int':
+                    try:
+                        vals.append(int(part))
+                    except ValueError:
+                        raise yatiml.SeasoningError(
+                            'field %s is not an integer' % pname)
+                else:
+                    vals.append(part)
+            node.make_mapping()
+            for (pname, kind), val in zip(op[1], vals):
+                node.set_attribute(pname, val)
     elif k == 'mapping_to_scalar':
         if node.is_mapping() and all(node.has_attribute(p) for p in op[1]):
             parts = [str(node.get_attribute(p).get_value()) for p in op[1]]
